@@ -356,6 +356,47 @@ func (x *rtx) exec(sc *scenario, path []uint16, pf goja.Value, o *op) transition
 
 type failure struct {
 	sig, what string
+	drift     string // stale counter of the failing side before the op ("" = none)
+	twin      bool   // the failing side is the twin
+}
+
+// judge = transition.judge + root-cause attribution: a fast-path letter failing on a state whose
+// bookkeeping counters are stale is classified by the letter that made them stale (found by replaying
+// the path prefix by prefix), not by the letter that happened to expose it.
+func (x *rtx) judge(sc *scenario, path []uint16, o *op, t *transition) []failure {
+	fs := t.judge(sc, o)
+	for i := range fs {
+		f := &fs[i]
+		if f.drift == "" {
+			continue
+		}
+		culprit := "start-state"
+		for k := 1; k <= len(path); k++ {
+			po := &sc.ops[path[k-1]]
+			pt := x.exec(sc, path[:k-1], nil, po)
+			side := pt.main
+			if f.twin {
+				side = pt.twin
+			}
+			if !pt.enabled || side.post.Kind != "dense" {
+				continue
+			}
+			if (f.drift == "+stale-objCount" && side.post.ObjCount != pt.postIdxCnt) || (f.drift == "+stale-propValueCount" && pt.postNonPlain && side.post.PVC == 0) {
+				culprit = po.class
+				if side.pre.Kind != "dense" {
+					culprit += " switching sparse->dense"
+				}
+				break
+			}
+		}
+		kind := "dense"
+		f.what = "exposed by " + o.class + ": " + f.what
+		f.sig = "stale" + strings.TrimPrefix(f.drift, "+stale") + " after " + culprit + "|" + kind + "|fast path misreads the array"
+	}
+	if len(fs) == 2 && fs[0].sig == fs[1].sig {
+		fs = fs[:1]
+	}
+	return fs
 }
 
 func splitRes(s string) (completion, log string) {
@@ -482,15 +523,15 @@ func (t *transition) judgeSide(sc *scenario, o *op, side obs) *failure {
 	}
 	cls := o.class + t.detail
 	if strings.HasPrefix(side.res, "HARNESS-ERROR") || strings.HasPrefix(side.dump, "HARNESS-ERROR") {
-		return &failure{cls + "|" + kind + "|go-panic-or-harness-error", side.res + " / " + side.dump}
+		return &failure{sig: cls + "|" + kind + "|go-panic-or-harness-error", what: side.res + " / " + side.dump}
 	}
 	if o.oracle == oMultiset {
 		comp, _ := splitRes(side.res)
 		if comp != "=A" && comp != `!"boom"` && !(strings.HasPrefix(o.class, "toSorted") && strings.HasPrefix(comp, "=[")) {
-			return &failure{cls + "|" + kind + "|result", "sort returned " + comp}
+			return &failure{sig: cls + "|" + kind + "|result", what: "sort returned " + comp}
 		}
 		if side.msPre != side.msP {
-			return &failure{cls + "|" + kind + "|multiset" + dr, "elements before: " + side.msPre + " after: " + side.msP}
+			return &failure{sig: cls + "|" + kind + "|multiset", what: "elements before: " + side.msPre + " after: " + side.msP, drift: dr}
 		}
 		return nil
 	}
@@ -502,13 +543,13 @@ func (t *transition) judgeSide(sc *scenario, o *op, side obs) *failure {
 		if rc == "ok/ok" {
 			rc = "value"
 		}
-		return &failure{cls + "|" + kind + "|result(" + rc + ")" + dr, fmt.Sprintf("completion %s, spec %s", sc2, mc)}
+		return &failure{sig: cls + "|" + kind + "|result(" + rc + ")", what: fmt.Sprintf("completion %s, spec %s", sc2, mc), drift: dr}
 	}
 	if ml != sl {
-		return &failure{cls + "|" + kind + "|calls" + dr, fmt.Sprintf("user-function call log %q, spec %q", sl, ml)}
+		return &failure{sig: cls + "|" + kind + "|calls", what: fmt.Sprintf("user-function call log %q, spec %q", sl, ml), drift: dr}
 	}
 	if t.model.dump != side.dump {
-		return &failure{cls + "|" + kind + "|state:" + diffPart(t.model.dump, side.dump) + dr, fmt.Sprintf("state after the operation %s, spec %s", side.dump, t.model.dump)}
+		return &failure{sig: cls + "|" + kind + "|state:" + diffPart(t.model.dump, side.dump), what: fmt.Sprintf("state after the operation %s, spec %s", side.dump, t.model.dump), drift: dr}
 	}
 	return nil
 }
@@ -521,7 +562,8 @@ func (t *transition) judge(sc *scenario, o *op) []failure {
 		fs = append(fs, *f)
 	}
 	if t.hasTwin {
-		if f := t.judgeSide(sc, o, t.twin); f != nil && (len(fs) == 0 || fs[0].sig != f.sig) {
+		if f := t.judgeSide(sc, o, t.twin); f != nil && (len(fs) == 0 || fs[0].sig != f.sig || fs[0].drift != f.drift) {
+			f.twin = true
 			fs = append(fs, *f)
 		}
 	}
@@ -626,7 +668,7 @@ func confirm(sc *scenario, path []uint16, o *op, f failure) bool {
 		x := newRtx()
 		t := x.exec(sc, path, nil, o)
 		ok := false
-		for _, g := range t.judge(sc, o) {
+		for _, g := range x.judge(sc, path, o, &t) {
 			if g.sig == f.sig {
 				ok = true
 			}
@@ -678,7 +720,7 @@ func (e *explorer) flush(sc *scenario) {
 		f := p.f
 		// the smallest case of every signature is re-run 5 times on fresh engines before it is believed
 		if !confirm(sc, path, o, f) {
-			f = failure{"nondeterministic|" + f.sig, "failure did not reproduce 5 times on fresh engines: " + f.what}
+			f = failure{sig: "nondeterministic|" + f.sig, what: "failure did not reproduce 5 times on fresh engines: " + f.what}
 		}
 		steps := append(append([]string{}, mkCase(sc, path, o, nil).Path...), o.js)
 		what := fmt.Sprintf("var a=%s; %s  =>  %s", sc.mainJS, strings.Join(steps, "; "), f.what)
@@ -709,130 +751,152 @@ func lessPath(a, b []uint16) bool {
 
 // bfs explores sc to the given depth; returns false if the deadline cut it short. Level d is complete
 // when every state first reached at depth d-1 had every enabled letter applied.
-func (e *explorer) bfs(sc *scenario, depth int) (levelsDone int, complete bool) {
-	r := e.r
-	seen := map[[16]byte]struct{}{}
-	frontier := [][]uint16{{}}
-	// the start state itself
-	var states, transitions, nontrivial, storageFlips int64
-	states = 1
+// search is the resumable BFS of one scenario: level(false) applies every enabled letter to the states
+// found by the previous level, level(true) is the final probe sweep (read-only letters only).
+type search struct {
+	e                                              *explorer
+	sc                                             *scenario
+	seen                                           map[[16]byte]struct{}
+	frontier                                       [][]uint16
+	depth                                          int // completed levels
+	swept, cut, exhausted                          bool
+	states, transitions, nontrivial, storageSwitch int64
+}
+
+func (e *explorer) newSearch(sc *scenario) *search {
+	return &search{e: e, sc: sc, seen: map[[16]byte]struct{}{}, frontier: [][]uint16{{}}, states: 1}
+}
+
+// level runs one BFS level; it returns false if the deadline cut it short (the level then does not count).
+func (s *search) level(sweep bool) bool {
+	e, sc, r := s.e, s.sc, s.e.r
+	if s.cut || s.exhausted {
+		return !s.cut
+	}
 	nw := r.Workers
-	sweepDone := false
-	for d := 1; d <= depth+1; d++ {
-		// level depth+1 is the final probe sweep: read-only letters on the states found last
-		sweep := d == depth+1
-		locals := make([]map[[16]byte][]uint16, nw)
-		type cnts struct{ tr, nt, flips int64 }
-		lc := make([]cnts, nw)
-		for i := range locals {
-			locals[i] = map[[16]byte][]uint16{}
-		}
-		ok := r.Parallel(int64(len(frontier)), 1, func(wk int, lo, hi int64) {
-			for fi := lo; fi < hi; fi++ {
-				path := frontier[fi]
-				var pf goja.Value
-				var pfOwner *rtx
-				for oi := range sc.ops {
-					o := &sc.ops[oi]
-					if sweep && !(o.probe || o.oracle != oLock) {
-						continue
-					}
-					x := e.rt(wk)
-					if pfOwner != x {
-						pf, pfOwner = x.pathFns(sc, path), x
-					}
-					e.watch(wk, sc, path, o)
-					t := x.exec(sc, path, pf, o)
-					e.watch(wk, nil, nil, nil)
-					if !t.enabled {
-						continue
-					}
-					lc[wk].tr++
-					if t.hasTwin && t.main.pre.Kind != t.twin.pre.Kind {
-						lc[wk].nt++
-					}
-					if t.main.pre.Kind != t.main.post.Kind || (t.hasTwin && t.twin.pre.Kind != t.twin.post.Kind) {
-						lc[wk].flips++
-					}
-					comp, _ := splitRes(t.main.res)
-					oh := core.HashString(o.class + comp)
-					if _, dup := e.outSeen.LoadOrStore(oh, true); !dup {
-						r.OutcomeH(oh)
-					}
-					if fs := t.judge(sc, o); len(fs) > 0 {
-						e.report(sc, path, o, oi, &t, fs)
-						continue
-					}
-					if r.WantSample(fi*int64(len(sc.ops)) + int64(oi)) {
-						r.Sample(map[string]interface{}{"scenario": sc.name, "subject": sc.mainJS, "twin": sc.twinJS,
-							"path": mkCase(sc, path, o, nil).Path, "op": o.js, "result": t.main.res, "state": t.main.dump,
-							"storage_subject": t.main.pre.s + " -> " + t.main.post.s,
-							"storage_twin":    t.twin.pre.s + " -> " + t.twin.post.s})
-					}
-					if t.main.post.Kind == "dense" && t.main.pre.Kind == "dense" && !t.drift(t.main) &&
-						(t.main.post.ObjCount > t.postIdxCnt || (t.postNonPlain && t.main.post.PVC == 0)) {
-						e.mu.Lock()
-						e.driftBy[o.class]++
-						e.mu.Unlock()
-					}
-					if o.probe || o.oracle != oLock {
-						continue
-					}
-					sum := sha1.Sum([]byte(t.key()))
-					var h [16]byte
-					copy(h[:], sum[:16])
-					if _, dup := seen[h]; dup { // seen is read-only during a level
-						continue
-					}
-					np := append(append(make([]uint16, 0, len(path)+1), path...), uint16(oi))
-					if old, dup := locals[wk][h]; !dup || lessPath(np, old) {
-						locals[wk][h] = np
-					}
+	frontier := s.frontier
+	locals := make([]map[[16]byte][]uint16, nw)
+	type cnts struct{ tr, nt, flips int64 }
+	lc := make([]cnts, nw)
+	for i := range locals {
+		locals[i] = map[[16]byte][]uint16{}
+	}
+	ok := r.Parallel(int64(len(frontier)), 1, func(wk int, lo, hi int64) {
+		for fi := lo; fi < hi; fi++ {
+			path := frontier[fi]
+			var pf goja.Value
+			var pfOwner *rtx
+			for oi := range sc.ops {
+				o := &sc.ops[oi]
+				if sweep && !(o.probe || o.oracle != oLock) {
+					continue
 				}
-			}
-		})
-		for i := range lc {
-			transitions += lc[i].tr
-			nontrivial += lc[i].nt
-			storageFlips += lc[i].flips
-		}
-		if !ok {
-			break
-		}
-		if sweep {
-			sweepDone = true
-			break
-		}
-		merged := map[[16]byte][]uint16{}
-		for _, l := range locals {
-			for h, p := range l {
-				if old, dup := merged[h]; !dup || lessPath(p, old) {
-					merged[h] = p
+				x := e.rt(wk)
+				if pfOwner != x {
+					pf, pfOwner = x.pathFns(sc, path), x
+				}
+				e.watch(wk, sc, path, o)
+				t := x.exec(sc, path, pf, o)
+				e.watch(wk, nil, nil, nil)
+				if !t.enabled {
+					continue
+				}
+				lc[wk].tr++
+				if t.hasTwin && t.main.pre.Kind != t.twin.pre.Kind {
+					lc[wk].nt++
+				}
+				if t.main.pre.Kind != t.main.post.Kind || (t.hasTwin && t.twin.pre.Kind != t.twin.post.Kind) {
+					lc[wk].flips++
+				}
+				comp, _ := splitRes(t.main.res)
+				oh := core.HashString(o.class + comp)
+				if _, dup := e.outSeen.LoadOrStore(oh, true); !dup {
+					r.OutcomeH(oh)
+				}
+				if fs := x.judge(sc, path, o, &t); len(fs) > 0 {
+					e.report(sc, path, o, oi, &t, fs)
+					continue
+				}
+				if r.WantSample(int64(s.depth)*1000003 + fi*int64(len(sc.ops)) + int64(oi)) {
+					r.Sample(map[string]interface{}{"scenario": sc.name, "subject": sc.mainJS, "twin": sc.twinJS,
+						"path": mkCase(sc, path, o, nil).Path, "op": o.js, "result": t.main.res, "state": t.main.dump,
+						"storage_subject": t.main.pre.s + " -> " + t.main.post.s,
+						"storage_twin":    t.twin.pre.s + " -> " + t.twin.post.s})
+				}
+				if t.main.post.Kind == "dense" && t.main.pre.Kind == "dense" && !t.drift(t.main) &&
+					(t.main.post.ObjCount > t.postIdxCnt || (t.postNonPlain && t.main.post.PVC == 0)) {
+					e.mu.Lock()
+					e.driftBy[o.class]++
+					e.mu.Unlock()
+				}
+				if sweep || o.probe || o.oracle != oLock {
+					continue
+				}
+				sum := sha1.Sum([]byte(t.key()))
+				var h [16]byte
+				copy(h[:], sum[:16])
+				if _, dup := s.seen[h]; dup { // seen is read-only during a level
+					continue
+				}
+				np := append(append(make([]uint16, 0, len(path)+1), path...), uint16(oi))
+				if old, dup := locals[wk][h]; !dup || lessPath(np, old) {
+					locals[wk][h] = np
 				}
 			}
 		}
-		frontier = frontier[:0]
-		for h, p := range merged {
-			seen[h] = struct{}{}
-			frontier = append(frontier, p)
-		}
-		sort.Slice(frontier, func(i, j int) bool { return lessPath(frontier[i], frontier[j]) })
-		states += int64(len(frontier))
-		levelsDone = d
-		if len(frontier) == 0 {
-			levelsDone, sweepDone = depth, true
-			break
-		}
+	})
+	for i := range lc {
+		s.transitions += lc[i].tr
+		s.nontrivial += lc[i].nt
+		s.storageSwitch += lc[i].flips
 	}
 	e.flush(sc)
-	r.States(states)
-	r.Transitions(transitions)
-	r.Traces(transitions)
-	r.Eval(transitions)
-	r.NontrivialN(nontrivial)
+	if !ok {
+		s.cut = true
+		return false
+	}
+	if sweep {
+		s.swept = true
+		return true
+	}
+	// deterministic merge: the lexicographically smallest path represents a new state
+	merged := map[[16]byte][]uint16{}
+	for _, l := range locals {
+		for h, p := range l {
+			if old, dup := merged[h]; !dup || lessPath(p, old) {
+				merged[h] = p
+			}
+		}
+	}
+	s.frontier = make([][]uint16, 0, len(merged))
+	for h, p := range merged {
+		s.seen[h] = struct{}{}
+		s.frontier = append(s.frontier, p)
+	}
+	sort.Slice(s.frontier, func(i, j int) bool { return lessPath(s.frontier[i], s.frontier[j]) })
+	s.states += int64(len(s.frontier))
+	s.depth++
+	if len(s.frontier) == 0 {
+		s.exhausted, s.swept = true, true // the whole reachable state space was explored
+	}
+	return true
+}
+
+func (s *search) finish(target int) {
+	r, e := s.e.r, s.e
+	r.States(s.states)
+	r.Transitions(s.transitions)
+	r.Traces(s.transitions)
+	r.Eval(s.transitions)
+	r.NontrivialN(s.nontrivial)
 	e.mu.Lock()
-	e.perSc[sc.name] = map[string]int64{"depth_completed": int64(levelsDone), "depth_target": int64(depth), "states": states,
-		"transitions": transitions, "twin_storage_differs": nontrivial, "storage_switches": storageFlips, "letters": int64(len(sc.ops))}
+	b := func(v bool) int64 {
+		if v {
+			return 1
+		}
+		return 0
+	}
+	e.perSc[s.sc.name] = map[string]int64{"depth_completed": int64(s.depth), "depth_target": int64(target), "probe_sweep_done": b(s.swept), "state_space_exhausted": b(s.exhausted), "states": s.states,
+		"transitions": s.transitions, "twin_storage_differs": s.nontrivial, "storage_switches": s.storageSwitch, "letters": int64(len(s.sc.ops))}
 	e.mu.Unlock()
-	return levelsDone, levelsDone >= depth && sweepDone
 }
